@@ -164,7 +164,16 @@ func init() {
 			Ideal: famGraph(3, 2, 5), IdealDeep: famGraph(3, 2, 7), IdealProps: []string{"P_C15"}, IdealInvs: []string{"CodeWaitsIsSpecWaits"}, Probes: append(append([]emitted{}, probeD10...), probeWaits...),
 			Proc:     &ProcCheck{Prop: "C15", Scenarios: "SeqScenarios", IdealInvs: []string{"Serializable"}, Only: []string{"C15_final"}},
 			GenQuick: famGraph(2, 2, 6), GenThorough: famGraph(3, 2, 7), SampleQuick: 200,
-			Sim: with(famGraph(4, 2, 14), func(m *SeqModel) { m.CmdNames = append(m.CmdNames, "claim") }), SimNumQuick: 60, SimNumThorough: 2000}
+			// chains given in ONE command (sequence A B C, also with a repeated id)
+			GenMore: []SeqModel{
+				with(famGraph(3, 0, 4), func(m *SeqModel) {
+					m.Name = "chains-tasks"
+					m.Extras = []string{"chains"}
+					m.StateArgs = nil
+					m.CmdNames = []string{"new_task", "sequence", "claim"}
+				}),
+			},
+			Sim: with(famGraph(4, 2, 14), func(m *SeqModel) { m.CmdNames = append(m.CmdNames, "claim"); m.Extras = append(m.Extras, "chains") }), SimNumQuick: 60, SimNumThorough: 2000}
 	}
 	registry["C16"] = func() Check {
 		return &SeqCheck{Prop: "C16",
